@@ -12,6 +12,7 @@
  * script:  reset <name>
  *          config <type 0..3> <role 0..2> <fmt> <op> <gk> <variant> <seed> <r0>
  *          set <property index> <v> <r> <14 wanted values>
+ *          (abstract values: spec/Image.tla part 2)
  *          end                                                                                    */
 #include "vcommon.h"
 #include <config.h>
@@ -36,7 +37,7 @@ typedef struct
 static int cfg_type, cfg_role, cfg_fmt, cfg_op, cfg_gk, cfg_variant, cfg_seed;
 static bimg_t L, A, B, D, S;
 static uint8_t *D0;		/* initial contents of D */
-static pixman_indexed_t pal[3];
+static pixman_indexed_t pal[4];		/* [3]: the contents of [1] at another address */
 
 /* ---- validate hook ---- */
 typedef struct { const void *p; int wd; uint32_t fl, efc; } vrec_t;
@@ -181,77 +182,104 @@ make_subject (bimg_t *x, const bimg_t *like, vrng_t *rng)
 /* ---- abstract value -> concrete argument (a function of the value and the configuration only) ---- */
 static pixman_fixed_t conv_p1[16], conv_p2[16];
 
+/* Abstract values: see spec/Image.tla part 2.  Compound arguments are passed from driver-owned scratch
+ * memory that is overwritten right after the call: the library must have copied what it needs. */
 static pixman_bool_t
 set_transform_v (pixman_image_t *im, int v)
 {
+    static const pixman_fixed_t base[3][9] = {
+	{ 0x10000, 0, 0x10000, 0, 0x10000, 0x8000, 0, 0, 0x10000 },		/* translate (1, 0.5) */
+	{ 0x20000, 0, 0, 0, 0x8000, 0, 0, 0, 0x10000 },				/* scale (2, 0.5) */
+	{ 0x18000, 0x4000, 0x8000, -0x2000, 0xc000, 0x10000, 0, 0, 0x10000 },	/* general affine */
+    };
+    static const pixman_fixed_t delta[9] = { 0x4000, 0x4000, 0x8000, 0x4000, 0x4000, 0x8000, 0x0400, 0x0400, 0x4000 };
     pixman_transform_t t;
+    pixman_bool_t r;
+    int k;
+    if (v == 0)
+	return pixman_image_set_transform (im, NULL);
     pixman_transform_init_identity (&t);
-    switch (v)
+    if (v >= 2)
     {
-    case 0: return pixman_image_set_transform (im, NULL);
-    case 1: break;
-    case 2: pixman_transform_init_translate (&t, pixman_int_to_fixed (1 + (cfg_variant & 1)), pixman_fixed_1 / 2); break;
-    case 3:
-	if (cfg_variant & 1)
-	    pixman_transform_init_scale (&t, pixman_fixed_1 / 2, pixman_fixed_1 * 3 / 2);
-	else
-	    pixman_transform_init_scale (&t, pixman_fixed_1 * 2, pixman_fixed_1 / 2);
-	break;
-    default:
-	t.matrix[0][1] = 0x4000;
-	t.matrix[2][0] = 0x0800;
-	t.matrix[2][1] = 0x0400;
-	break;
+	const pixman_fixed_t *b = base[cfg_variant % 3];
+	for (k = 0; k < 9; k++)
+	    t.matrix[k / 3][k % 3] = b[k] + (v == 3 + k ? delta[k] : 0);
     }
-    return pixman_image_set_transform (im, &t);
+    r = pixman_image_set_transform (im, &t);
+    memset (&t, 0x5b, sizeof t);
+    return r;
 }
 
 static pixman_bool_t
 set_filter_v (pixman_image_t *im, int v)
 {
-    static const pixman_fixed_t ca[11] = { 3 * pixman_fixed_1, 3 * pixman_fixed_1,
+    static const pixman_fixed_t k3[11] = { 3 * pixman_fixed_1, 3 * pixman_fixed_1,
 	0x1000, 0x2000, 0x1000, 0x2000, 0x4000, 0x2000, 0x1000, 0x2000, 0x1000 };
-    static const pixman_fixed_t cb[11] = { 3 * pixman_fixed_1, 3 * pixman_fixed_1,
-	0, 0x4000, 0, 0x4000, 0, 0x4000, 0, 0x4000, 0 };	/* same size as A, other weights */
-    static const pixman_fixed_t sep[10] = { 2 * pixman_fixed_1, pixman_fixed_1, pixman_fixed_1, 0,
+    static const pixman_fixed_t k1[5] = { 3 * pixman_fixed_1, pixman_fixed_1, 0x4000, 0x8000, 0x4000 };
+    static const pixman_fixed_t sep[9] = { 2 * pixman_fixed_1, pixman_fixed_1, pixman_fixed_1, 0,
 	0x8000, 0x8000, 0xc000, 0x4000, pixman_fixed_1 };
-    switch (v)
+    pixman_fixed_t *buf = v == 3 ? conv_p2 : conv_p1;	/* 3: the same kernel from another address */
+    pixman_filter_t kind = PIXMAN_FILTER_CONVOLUTION;
+    pixman_bool_t r;
+    int n;
+    if (v == 0)
+	return pixman_image_set_filter (im, PIXMAN_FILTER_NEAREST, NULL, 0);
+    if (v == 1)
+	return pixman_image_set_filter (im, PIXMAN_FILTER_BILINEAR, NULL, 0);
+    if (v <= 6)
     {
-    case 0: return pixman_image_set_filter (im, PIXMAN_FILTER_NEAREST, NULL, 0);
-    case 1: return pixman_image_set_filter (im, PIXMAN_FILTER_BILINEAR, NULL, 0);
-    case 2: memcpy (conv_p1, ca, sizeof ca); return pixman_image_set_filter (im, PIXMAN_FILTER_CONVOLUTION, conv_p1, 11);
-    case 3: memcpy (conv_p2, ca, sizeof ca); return pixman_image_set_filter (im, PIXMAN_FILTER_CONVOLUTION, conv_p2, 11);
-    case 4: memset (conv_p1, 0, sizeof conv_p1); memcpy (conv_p1, cb, sizeof cb);
-	return pixman_image_set_filter (im, PIXMAN_FILTER_CONVOLUTION, conv_p1, 11);
-    default: return pixman_image_set_filter (im, PIXMAN_FILTER_SEPARABLE_CONVOLUTION, sep, 9);
+	n = 11;
+	memcpy (buf, k3, sizeof k3);
+	if (v == 4) buf[2] = 0x9000;		/* first coefficient only */
+	if (v == 5) buf[6] = 0xc000;		/* a middle coefficient only */
+	if (v == 6) buf[10] = 0x9000;		/* last coefficient only */
     }
+    else if (v == 7)
+    {
+	n = 5;
+	memcpy (buf, k1, sizeof k1);
+    }
+    else
+    {
+	kind = PIXMAN_FILTER_SEPARABLE_CONVOLUTION;
+	n = 9;
+	memcpy (buf, sep, sizeof sep);
+	if (v == 9) buf[4] = 0x2000;		/* first tap only */
+	if (v == 10) buf[6] = 0x4000;		/* a middle tap only */
+	if (v == 11) buf[8] = 0x8000;		/* last tap only */
+    }
+    r = pixman_image_set_filter (im, kind, buf, n);
+    memset (buf, 0x5b, 16 * sizeof (pixman_fixed_t));
+    return r;
 }
 
 static pixman_bool_t
 set_clip_v (pixman_image_t *im, int v)
 {
-    static const pixman_box32_t one[1] = { { 1, 0, 6, 3 } };
-    static const pixman_box32_t two[2] = { { 0, 0, 3, 2 }, { 2, 3, 7, 5 } };
+    pixman_box32_t bx[2] = { { 0, 0, 3, 2 }, { 2, 3, 7, 5 } };
     pixman_region32_t reg;
     pixman_bool_t r;
+    int n = v == 1 ? 1 : 2;
     if (v == 0)
 	return pixman_image_set_clip_region32 (im, NULL);
+    if (v == 1) { bx[0].x1 = 1; bx[0].y1 = 0; bx[0].x2 = 6; bx[0].y2 = 3; }
+    if (v == 3) bx[1].x2 = 6;			/* only the last rectangle differs from 2 */
+    if (v == 4) bx[0].x2 = 4;			/* only the first rectangle differs from 2 */
     if (cfg_variant & 4)
     {
 	pixman_region16_t r16;
 	pixman_box16_t b[2];
-	int i, n = v;
+	int i;
 	for (i = 0; i < n; i++)
 	{
-	    const pixman_box32_t *s = v == 1 ? &one[i] : &two[i];
-	    b[i].x1 = s->x1; b[i].y1 = s->y1; b[i].x2 = s->x2; b[i].y2 = s->y2;
+	    b[i].x1 = bx[i].x1; b[i].y1 = bx[i].y1; b[i].x2 = bx[i].x2; b[i].y2 = bx[i].y2;
 	}
 	pixman_region_init_rects (&r16, b, n);
 	r = pixman_image_set_clip_region (im, &r16);
 	pixman_region_fini (&r16);
 	return r;
     }
-    pixman_region32_init_rects (&reg, v == 1 ? one : two, v);
+    pixman_region32_init_rects (&reg, bx, n);
     r = pixman_image_set_clip_region32 (im, &reg);
     pixman_region32_fini (&reg);
     return r;
@@ -276,14 +304,15 @@ apply_prop (bimg_t *x, bimg_t *a, bimg_t *b, int p, int v, const int *want)
     case P_AO:
     {
 	int am = p == P_AM ? v : want[P_AM], ao = p == P_AO ? v : want[P_AO];
-	pixman_image_set_alpha_map (im, am == 0 ? NULL : am == 1 ? a->img : b->img, (int16_t)(ao ? 1 : 0), (int16_t)(ao ? -1 : 0));
+	pixman_image_set_alpha_map (im, am == 0 ? NULL : am == 1 ? a->img : b->img,
+				    (int16_t)((ao & 1) ? 1 : 0), (int16_t)((ao & 2) ? -1 : 0));
 	break;
     }
     case P_CA: pixman_image_set_component_alpha (im, v); break;
     case P_ACC: pixman_image_set_accessors (im, v ? rd : NULL, v ? wr : NULL); break;
     case P_PAL: pixman_image_set_indexed (im, &pal[v]); break;
     case P_D: pixman_image_set_dither (im, dithers[v % 3]); break;
-    case P_DOF: pixman_image_set_dither_offset (im, v ? 3 : 0, v ? 1 : 0); break;
+    case P_DOF: pixman_image_set_dither_offset (im, (v & 1) ? 3 : 0, (v & 2) ? 1 : 0); break;
     case P_MA: pixman_image_set_accessors (a->img, v ? rd : NULL, v ? wr : NULL); break;
     }
 }
@@ -409,6 +438,7 @@ init_palettes (void)
 	    pal[k].rgba[i] = 0xff000000u | (r << 16) | (g << 8) | (b & 0xff);
 	}
     }
+    pal[3] = pal[1];
 }
 
 static void
